@@ -118,6 +118,13 @@ class SymNd(rnp.ndarray):
         return rnp.ndarray.__getitem__(self, k)
 
     def __setitem__(self, k, v):
+        if self._is_mask(k) and not isinstance(v, MaskSel):
+            r = ctx.cur()
+            if r is not None and r.decisions is not None and getattr(r, "fork_masks", True) and isinstance(v, rnp.ndarray) and v.ndim and v.shape != self.shape:
+                # fork mode, value already compressed by a[mask] on this path: decide the mask the same way and assign for real
+                conc = rnp.array([bool(e) for e in k.reshape(-1)], dtype=bool).reshape(k.shape)
+                rnp.ndarray.__setitem__(self, conc, v)
+                return
         if self._is_mask(k) and isinstance(v, MaskSel):
             if v.mask is not k:
                 raise SymbolicBranch("masked assignment from a selection under a different symbolic mask")
